@@ -156,6 +156,22 @@ func genImpGraph(t *rapid.T, maxFiles int) impCase {
 				addEdge(i, rapid.IntRange(0, n-1).Draw(t, "to"))
 			}
 		}
+		// the very same import statement twice in one file (same spelling, same alias): legal, and the two
+		// retrievals of it race for one entry
+		if rapid.IntRange(0, 2).Draw(t, "dupimport") == 0 {
+			var withEdges []int
+			for i := 0; i < n; i++ {
+				if len(g.Edges[i]) > 0 {
+					withEdges = append(withEdges, i)
+				}
+			}
+			if len(withEdges) > 0 {
+				i := withEdges[rapid.IntRange(0, len(withEdges)-1).Draw(t, "dupfile")]
+				k := rapid.IntRange(0, len(g.Edges[i])-1).Draw(t, "dupedge")
+				g.Edges[i] = append(g.Edges[i], g.Edges[i][k])
+				g.Spell[i] = append(g.Spell[i], g.Spell[i][k])
+			}
+		}
 		// text order of a file's imports is part of the semantics: shuffle it
 		for i := 0; i < n; i++ {
 			if len(g.Edges[i]) > 1 && rapid.Bool().Draw(t, "shuffle") {
@@ -430,6 +446,9 @@ type gateReader struct {
 	total   int
 	unknown []string // names requested that no file of the graph has
 	relLog  []string
+	// free: reads are answered at once (no gate); the order in which they were asked for is logged
+	free    bool
+	freeLog []int
 }
 
 func newGateReader(g *impCase) *gateReader {
@@ -465,14 +484,20 @@ func (g *gateReader) ReadHashBranch(ctx context.Context, p string) ([]byte, retr
 	}
 	r := &gateReq{name: cn, idx: idx, rel: make(chan struct{})}
 	g.mu.Lock()
-	g.pending = append(g.pending, r)
+	if g.free {
+		g.freeLog = append(g.freeLog, idx)
+	} else {
+		g.pending = append(g.pending, r)
+	}
 	g.reads[cn]++
 	g.total++
 	if idx < 0 {
 		g.unknown = append(g.unknown, p)
 	}
 	g.mu.Unlock()
-	<-r.rel
+	if !g.free {
+		<-r.rel
+	}
 	if idx < 0 {
 		return nil, retriever.ZeroHash, "", fmt.Errorf("no such file %q", p)
 	}
@@ -546,6 +571,24 @@ func runGated(g *impCase, gr *gateReader, sched []int, followImports func(i int)
 	}
 	deadline := time.Now().Add(18 * time.Second)
 	maxReads := 50*len(g.Paths) + 50
+	if gr.free {
+		// free-running execution: the retrievals race as they do in production
+		out.ModelExact = false
+		select {
+		case r := <-done:
+			gr.mu.Lock()
+			out.Releases = append([]int{}, gr.freeLog...)
+			gr.mu.Unlock()
+			return finish(r)
+		case <-time.After(time.Until(deadline)):
+			out.Hung = true
+			gr.mu.Lock()
+			out.Releases = append([]int{}, gr.freeLog...)
+			out.Reads, out.Total, out.Unknown = gr.reads, gr.total, gr.unknown
+			gr.mu.Unlock()
+			return out
+		}
+	}
 	for {
 		// wait until the number of pending reads equals the model's prediction (fast path),
 		// or is stable for 20ms (slow path: the implementation departs from the model)
@@ -729,8 +772,9 @@ var _ = registerOp("c05.gated", func(raw json.RawMessage) (interface{}, error) {
 	}
 	g := &a.G
 	gr := newGateReader(g)
+	gr.free = strings.HasSuffix(a.Mode, "-free")
 	var follow func(i int) bool
-	if a.Mode == "c06" {
+	if strings.HasPrefix(a.Mode, "c06") {
 		follow = func(i int) bool { return c06Follows(g.Faults[i]) }
 		for i, k := range g.Faults {
 			if k == "readerr" {
